@@ -28,6 +28,16 @@ def gen_cases(tier, seed):
         base = {"nodes": nodes, "edges": edges, "flow": dict(zip(edges, fl)), "planted": [], "wt": "int", "mode": "edge"}
         cases.append({"cyc": False, "mode": "edge", "wt": "int", "kdelta": 0, "knone": False, "ignore": [], "scale": [], "starts": [], "ends": [], "superset": None,
                       "plr": [[[0, 3], [4, 60]], [1.0, 0.5]], "spec": I.spec_of(base)})
+    # corpus 'hourglass': every allowed weight exceeds every flow value and all paths share a zero-flow waist edge, so the error / slack on
+    # the waist reaches the SUM of the allowed weights
+    for f_, wst in ((9, 0), (4, 1), (7, 0)):
+        hn = ["a1", "a2", "m", "n", "b1", "b2"]; he = [("a1", "m"), ("a2", "m"), ("m", "n"), ("n", "b1"), ("n", "b2")]
+        hf = {("a1", "m"): f_, ("a2", "m"): f_, ("m", "n"): wst, ("n", "b1"): f_, ("n", "b2"): f_}
+        for wt_ in ("int", "float"):
+            hb = {"nodes": hn, "edges": he, "flow": {e: (float(v) if wt_ == "float" else v) for e, v in hf.items()}, "planted": [], "wt": wt_, "mode": "edge"}
+            sup_ = [f_ + 1, f_ + 1] if wt_ == "int" else [f_ + 1.0, f_ + 1.0]
+            cases.append({"cyc": False, "mode": "edge", "wt": wt_, "kdelta": 0, "knone": False, "ignore": [], "scale": [], "starts": [], "ends": [], "superset": sup_, "plr": None,
+                          "spec": I.spec_of(hb), "exact_superset": True})
     n = 260 if tier == "quick" else 3000
     for i in range(n):
         rng = gen.rng_for("C08", seed, i)
@@ -67,6 +77,10 @@ def gen_cases(tier, seed):
         if not cyc and rng.random() < 0.12 and not c["knone"]:
             ws = [w for _, w in base["planted"]][:3] or [1]
             c["superset"] = ws + [rng.choice([1, 2]) if wt == "int" else 0.5]
+            if rng.random() < 0.35:
+                # every allowed weight exceeds every flow value: the errors (slacks) pile up beyond the largest flow
+                mx = max(base["flow"].values()) or 1
+                c["superset"] = [(mx + rng.choice([1, 2])) if wt == "int" else float(mx + 0.5)] * rng.randint(1, 3)
         if not cyc and wt == "int" and rng.random() < 0.15 and c["superset"] is None and not node:
             c["plr"] = [[[0, 3], [4, 60]], [1.0, 0.5]]
         drop = [e for e in [models._elem(x) for x in c["ignore"]] if rng.random() < 0.3]
@@ -211,8 +225,11 @@ def run_case(case):
     if width is None or width > 4:
         return {"viol": [], "obs": {"c08.not_coverable_or_too_wide": 1}, "nontrivial": False}
     k = None if case["knone"] else width + case["kdelta"]
-    if case["superset"] is not None:
-        case = dict(case); case["superset"] = (case["superset"] * 3)[:max(len(case["superset"]), width + 3)]
+    if case["superset"] is not None and not case.get("exact_superset"):
+        sup = list(case["superset"])
+        while len(sup) < width + 3:
+            sup = sup + list(case["superset"])          # (the model takes k = len(superset): keep it at or above the covering number)
+        case = dict(case); case["superset"] = sup[:max(len(case["superset"]), width + 3)]
     desc = f"{'cyclic' if cyc else 'DAG'} mode={mode} wt={wt} k={k} width={width} {dshow} ignore={sorted(map(str, ign))} scale={sc} starts={case['starts']} ends={case['ends']} superset={case['superset']} plr={case.get('plr')}"
     tags = [t for t, c in (("node", mode == "node"), ("ignore", ign), ("scale", sc), ("starts/ends", case["starts"] or case["ends"]), ("superset", case["superset"] is not None), ("plr", case.get("plr")), ("float", wt == "float"), ("k=None", k is None)) if c]
     tagstr = ("/" + "/".join(tags)) if tags else ""
